@@ -146,7 +146,11 @@ impl ValueStack {
     /// Returns the very first item
     pub fn clear_until(&mut self, index: usize) -> Value {
         let res = self.last();
-        self.count = index;
+        // only ever truncate: the slots above the top are stale, raising the height would make
+        // them values of the program again
+        if index < self.count {
+            self.count = index;
+        }
         res
     }
 
